@@ -162,6 +162,8 @@ func getLabelsParams(r *http.Request) (*promLabelsParams, error) {
 	if r.Method == "POST" && r.Header.Get("content-type") == "application/x-www-form-urlencoded" {
 		rawParams := rawPromLabelsParams{}
 		dec := schema.NewDecoder()
+		// the form also carries match[] (read by getPromSeriesParamsV2)
+		dec.IgnoreUnknownKeys(true)
 		err := r.ParseForm()
 		if err != nil {
 			return nil, err
